@@ -25,6 +25,7 @@ import (
 type SecurityAdapters struct {
 	securityChain *ports.SecurityChain
 	logger        logger.StyledLogger
+	maxBodySize   int64 // server.request_limits.max_body_size; 0 disables the body cap
 }
 
 // CreateChainMiddleware creates middleware that applies the full security chain with enhanced logging
@@ -64,9 +65,17 @@ func (s *SecurityAdapters) CreateChainMiddleware() func(http.Handler) http.Handl
 							w.Header().Set("Retry-After", strconv.Itoa(result.RetryAfter))
 						}
 					}
+					if err == nil && s.maxBodySize > 0 && r.ContentLength > s.maxBodySize {
+						status = http.StatusRequestEntityTooLarge // declared body above max_body_size
+					}
 					http.Error(w, "Security validation failed", status)
 					return
 				}
+			}
+			// The size validator can only judge a declared Content-Length; a chunked body has
+			// none (-1), so cap what downstream code may read as well.
+			if s.maxBodySize > 0 && r.Body != nil && r.Body != http.NoBody {
+				r.Body = http.MaxBytesReader(w, r.Body, s.maxBodySize)
 			}
 			withAccessLogging.ServeHTTP(w, r)
 		})
@@ -143,6 +152,7 @@ func NewApplication(
 	securityAdapters := &SecurityAdapters{
 		securityChain: securityChain,
 		logger:        logger,
+		maxBodySize:   cfg.Server.RequestLimits.MaxBodySize,
 	}
 
 	// Create route registry
